@@ -3,6 +3,7 @@ import XModel.Link
 import XModel.Unique
 import XModel.Acyclic
 import XModel.ManagerC13
+import XModel.ManagerFn
 /-!
 # C01 — expression-defined locations always equal their definition on current data
 
@@ -69,6 +70,20 @@ theorem C01_other_locations (sched : Sched) (s : MState) (p : Path) (v : Val) (h
       get s'.store q = get s.store q :=
   setValue_other_locations sched s p v hi sc s' hok
 
+/-- **with function tasks**: "each target of a function task holds what that task prescribes".  A function task is a
+    body of assignments `target := expression` (its items); if every task's declared dependencies and targets are
+    sound (`DeclOK`) and the items do not disturb each other (`ScopeF`), a completed assignment of a value to a plain
+    location leaves every item of every expression and function task holding. -/
+theorem C01_set_value_function_tasks (sched : Sched) (s : MState) (p : Path) (v : Val) (hi : MInv s)
+    (hnodef : lookDef s.defs p = none) (sc : ScopeF s p)
+    (hvs : ValidSched (gOf s.idx) (findTaskids s.idx (chainR p)) (sched (findTaskids s.idx (chainR p))))
+    (hc : ConsistentF s) (s' : MState) (hok : setValue sched s p v = (s', none)) : ConsistentF s' :=
+  setValue_consistentF sched s p v hi hnodef sc hvs hc s' hok
+
+/-- the decidable form of `ScopeF` is sound -/
+theorem C01_function_scope_test_sound (s : MState) (hi : MInv s) (p : Path) (h : scopeFB s p = true) : ScopeF s p :=
+  scopeFB_sound s hi p h
+
 /-- **all histories** of in-scope, completed assignments and maintenance calls -/
 theorem C01_histories (sched : Sched) (cs : List Call) (s : MState) (hi : MInv s) (hc : Consistent s)
     (hg : GoodRun sched s cs) : Consistent (applyAll sched s cs) :=
@@ -104,6 +119,20 @@ example : goodRunB id s0 hist = true := by decide
 theorem example_consistent : Consistent (applyAll id s0 hist) :=
   C01_decided id hist s0 s0_inv (fun _ h => by cases h) (by decide)
 example : get (applyAll id s0 hist).store de = .ok (.int 42) := rfl
+
+/-! a function task `#F : e := c * 2 ; f := a + 1` next to the definition `c = a + b` -/
+def df : Path := [.item (.str "d"), .item (.str "f")]
+def sF0 : MState :=
+  { MState.init with store := .dict [(.str "d", .dict [(.str "a", .int 1), (.str "b", .int 2), (.str "c", .none),
+      (.str "e", .none), (.str "f", .none)])] }
+def fTask : MTask :=
+  ⟨[.item (.str "#F")], .func [(de, .bin "Mul" (.ref dc) (.lit (.int 2))), (df, .bin "Add" (.ref da) (.lit (.int 1)))],
+   [dc, da], [de, df]⟩
+def sF : MState := (setValue id (register (setExpr id sF0 dc (.bin "Add" (.ref da) (.ref db))).1 fTask).1 da (.int 5)).1
+example : scopeFB sF da = true ∧
+    validSchedule sF.idx (chainR da) (findTaskids sF.idx (chainR da)) = true := by decide
+example : (setValue id sF da (.int 7)).2 = none ∧ get (setValue id sF da (.int 7)).1.store de = .ok (.int 18) ∧
+    get (setValue id sF da (.int 7)).1.store df = .ok (.int 8) := ⟨rfl, rfl, rfl⟩
 
 /-- outside the scope the statement is false of the model too (and of the code: known finding D1): two
     members of one nested container feeding each other — `d['n']['y'] = d['n']['x'] + 1`,
